@@ -3,15 +3,16 @@ module github.com/buzzfeed/sso/verifsim
 go 1.26
 
 require (
+	github.com/18F/hmacauth v0.0.0-20151013130326-9232a6386b73
 	github.com/anishathalye/porcupine v1.3.0
 	github.com/buzzfeed/sso v0.0.0
 	github.com/datadog/datadog-go v0.0.0-20180822151419-281ae9f2d895
 	github.com/sirupsen/logrus v1.4.2
+	golang.org/x/net v0.21.0
 )
 
 require (
 	cloud.google.com/go v0.39.0 // indirect
-	github.com/18F/hmacauth v0.0.0-20151013130326-9232a6386b73 // indirect
 	github.com/BurntSushi/toml v0.3.1 // indirect
 	github.com/aws/aws-sdk-go v1.23.12 // indirect
 	github.com/benbjohnson/clock v0.0.0-20161215174838-7dc76406b6d3 // indirect
@@ -29,7 +30,6 @@ require (
 	github.com/mitchellh/mapstructure v1.1.2 // indirect
 	github.com/rakyll/statik v0.1.7 // indirect
 	go.opencensus.io v0.22.0 // indirect
-	golang.org/x/net v0.21.0 // indirect
 	golang.org/x/oauth2 v0.0.0-20190604053449-0f29369cfe45 // indirect
 	golang.org/x/sync v0.1.0 // indirect
 	golang.org/x/sys v0.19.0 // indirect
